@@ -130,6 +130,7 @@ fn fmt_opts(o: &[(String, String)]) -> String {
     s
 }
 
+/// Value of an option in a list read front to back: the last occurrence is the one in force.
 pub fn opt<'a>(opts: &'a [(String, String)], name: &str) -> Option<&'a str> {
-    opts.iter().find(|(k, _)| k.eq_ignore_ascii_case(name)).map(|(_, v)| v.as_str())
+    opts.iter().rev().find(|(k, _)| k.eq_ignore_ascii_case(name)).map(|(_, v)| v.as_str())
 }
